@@ -3,8 +3,8 @@
 EXTENDS Naturals, Integers, Sequences, FiniteSets, TLC
 
 BIG == 1073741824   \* sentinel: "does not fit a TLC int / absurdly large"
-Min(a, b) == IF a < b THEN a ELSE b
-Max(a, b) == IF a > b THEN a ELSE b
+MinI(a, b) == IF a < b THEN a ELSE b
+MaxI(a, b) == IF a > b THEN a ELSE b
 
 Bits7(g) == [i \in 1..7 |-> (g \div (2^(i-1))) % 2]
 Bits8(g) == [i \in 1..8 |-> (g \div (2^(i-1))) % 2]
